@@ -141,7 +141,7 @@ Qed.
 (* the AF callbacks of one group: none unless it is a 0A group with error-free B and C whose first
    code is not 250; then, for each of the two codes in block order, one callback iff that code
    became listed at that moment, carrying 87500 + 100 * code kHz and a bitmap that lists it *)
-Theorem af_callbacks h g s : reach conv lut h s -> wf_group g ->
+Theorem af_callbacks_wf h g s : reach conv lut h s -> wf_group g ->
   let evs := filter (isf FAF) (snd (process conv lut g s)) in
   let a0 := d_af (used s) in
   let a2 := d_af (used (fst (process conv lut g s))) in
@@ -153,6 +153,7 @@ Theorem af_callbacks h g s : reach conv lut h s -> wf_group g ->
       /\ (forall w, 0 <= w < 256 -> w <> v1 -> af_get a1 w = af_get a0 w)
       /\ (forall w, 0 <= w < 256 -> w <> v2 -> af_get a2 w = af_get a1 w)
       /\ (af_get a0 v1 = true -> af_get a1 v1 = true) /\ (af_get a1 v2 = true -> af_get a2 v2 = true)
+      /\ AfWF a1 /\ AfWF a2
   else evs = [] /\ a2 = a0.
 Proof.
   intros Hr Hwf. pose proof Hwf as [Ha [Hb [Hc [Hd [Hea [Heb [Hec Hed]]]]]]]. unfold blk_ok, err_ok in *.
@@ -253,7 +254,7 @@ Proof.
   exists (d_af (used sB)).
   subst sB sA pslam. cbv beta in *. rewrite Ev1, Ev2. rewrite FA1, FA3, FA4, KB1, KB2, FA3, FA4.
   unfold newly, af_event.
-  repeat split; try assumption.
+  split; [|split; [|split; [|split; [|split; [|split]]]]]; try assumption.
   - f_equal.
     + match goal with |- filter _ (if ?c then _ else _) = _ => destruct c end; cbn [filter];
         [unfold isf at 1; cbn [ev_field]; unfold field_eqb; rewrite Z.eqb_refl|]; reflexivity.
@@ -261,6 +262,25 @@ Proof.
         [unfold isf at 1; cbn [ev_field]; unfold field_eqb; rewrite Z.eqb_refl|]; reflexivity.
   - intros w Hw N. rewrite (O1 w Hw N), FA1. reflexivity.
   - intros Hg. apply M1. rewrite FA1. exact Hg.
+Qed.
+
+Theorem af_callbacks h g s : reach conv lut h s -> wf_group g ->
+  let evs := filter (isf FAF) (snd (process conv lut g s)) in
+  let a0 := d_af (used s) in
+  let a2 := d_af (used (fst (process conv lut g s))) in
+  let v1 := w_hi (gc g) in let v2 := w_lo (gc g) in
+  if (b_group (gb g) =? 0) && (b_ver (gb g) =? 0) && (eb g =? 0) && (ec g =? 0) && negb (v1 =? 250) then
+    exists a1,
+      evs = (if newly a0 a1 v1 && negb (cb s FAF =? 0) then [af_event s v1 a1] else [])
+            ++ (if newly a1 a2 v2 && negb (cb s FAF =? 0) then [af_event s v2 a2] else [])
+      /\ (forall w, 0 <= w < 256 -> w <> v1 -> af_get a1 w = af_get a0 w)
+      /\ (forall w, 0 <= w < 256 -> w <> v2 -> af_get a2 w = af_get a1 w)
+      /\ (af_get a0 v1 = true -> af_get a1 v1 = true) /\ (af_get a1 v2 = true -> af_get a2 v2 = true)
+  else evs = [] /\ a2 = a0.
+Proof.
+  intros Hr Hwf. pose proof (af_callbacks_wf h g s Hr Hwf) as H. cbv zeta in *.
+  destruct ((b_group (gb g) =? 0) && (b_ver (gb g) =? 0) && (eb g =? 0) && (ec g =? 0) && negb (w_hi (gc g) =? 250)); [|exact H].
+  destruct H as [a1 [E [F1 [F2 [M1 [M2 _]]]]]]. exists a1. auto.
 Qed.
 
 End CbAf2.
